@@ -166,7 +166,14 @@ def run_create(feats, fmt="gff3", text=False, **kw):
     try:
         objs = [to_feature(d, dialect) for d in feats]
         if text:
-            data = "\n".join(str(o) for o in objs) + "\n"
+            # "rawcol": the attribute column as it stands in the file (e.g. a key written once per value) for this line
+            lines = []
+            for d, o in zip(feats, objs):
+                ln = str(o)
+                if d.get("rawcol") is not None:
+                    ln = "\t".join(ln.split("\t")[:8] + [d["rawcol"]])
+                lines.append(ln)
+            data = "\n".join(lines) + "\n"
             db = gffutils.create_db(data, ":memory:", from_string=True, **kw)
         else:
             db = gffutils.create_db(objs, ":memory:", dialect=dialect, **kw)
